@@ -678,3 +678,6 @@ def decide_inconclusive(obs, results, cases):
     if obs.get('abandoned_result_seen_after_cancel', 0) == 0 or obs.get('abandoned_result_seen_before_cancel', 0) == 0:
         return 'abandonments never landed on both sides of the gather thread'
     return None
+
+
+RULE = RULE + '; mass abandonment (8-300 requests at once, then shutdown or one more call); enqueue-timeout rounds (a caller gives up -- timeout or task cancellation -- waiting for room within +-6 ms of the slot being freed, a patient caller right behind it; delay site in threading.Condition.wait, loop staller under asyncio); process lifetimes with 100-300 kB inputs'
